@@ -5,7 +5,9 @@ from ..memstream import gen_case, run_stream_case
 ID = "C12"
 RULE = ("Hypothesis-generated actor scripts over one memory object stream (max_buffer_size 0/1/2/inf, 1-3 clones per "
         "side, send/send_nowait/receive/receive_nowait, cancels by scope or natively incl. offsets -1/0/+1 around a "
-        "hand-over to a parked peer); non-trivial = two or more parties blocked at once, or a cancel landing within one "
+        "hand-over to a parked peer; in a quarter of the scripts clones are closed / made along the way while a spare "
+        "receive clone stays open; optional extra scopes around operations and tasks whose Task.cancelling() is 1 for "
+        "life); non-trivial = two or more parties blocked at once, or a cancel landing within one "
         "cycle of a hand-over; distinct = distinct canonical JSON")
 ASSUMPTIONS = [
     "ordering rules in interval form ([call cycle, return cycle]); FIFO of blocked parties: an earlier live waiter must "
